@@ -467,8 +467,10 @@ def main_check(mod, tier: str, seed: int, replay: str | None = None) -> int:
     for i, r in enumerate(results):
         for f in r["findings"]:
             by_sig.setdefault(f["sig"], []).append((i, f))
+    cross_case = set()
     for f in extra_cov.pop("_findings", []):
         by_sig.setdefault(f["sig"], []).append((f.get("case_index", -1), f))
+        cross_case.add(f["sig"])   # produced by comparing several cases: re-executing one case alone cannot reproduce it
     known, fixed = load_known(pid)
     evals = sum(int(r.get("evals", 1)) for r in results)
     nontriv = set()
@@ -523,7 +525,7 @@ def main_check(mod, tier: str, seed: int, replay: str | None = None) -> int:
     # confirm determinism of every new violation (twice, fresh pool worker) before reporting it
     nondet = []
     if violations and not getattr(mod, "NO_RECONFIRM", False):
-        todo = [(sig, idx) for sig, _, _, idx in violations if idx >= 0]
+        todo = [(sig, idx) for sig, _, _, idx in violations if idx >= 0 and sig.removesuffix("|input-not-in-known-witness-set") not in cross_case]
         if todo:
             rr1 = explore(mod, [cases[i] for _, i in todo], progress=False)
             rr2 = explore(mod, [cases[i] for _, i in todo], progress=False)
